@@ -14,6 +14,9 @@ from vlib.hk import done
 _mod, _cls = os.environ.get("VERIF_CLS", "odfdo.paragraph:Span").split(":")
 CLS = getattr(importlib.import_module(_mod), _cls)
 PARAM = os.environ.get("VERIF_PARAM", "style")
+D = int(os.environ.get("VERIF_DEPTH", "0"))  # thorough tier: deeper bounds (per process)
+NA = 4 + D
+NTC = 3 + D
 
 
 def _find_prop():
@@ -47,7 +50,7 @@ def _check(e, value):
 
 def attr_str(s: str) -> bool:
     """
-    pre: 1 <= len(s) <= 4 and all(32 < ord(c) < 55296 for c in s) and s != "true"
+    pre: 1 <= len(s) <= NA and all(32 < ord(c) < 55296 for c in s) and s != "true" and s != "false"
     post: _
     """
     # any non-blank XML-legal string except the literal "true"/"false" (known finding C12-true-false-strings)
@@ -79,7 +82,7 @@ def attr_true_string(k: int) -> bool:
 
 def text_content_arg(s: str) -> bool:
     """
-    pre: len(s) <= 3 and all(c in ("a", " ", chr(10)) for c in s)
+    pre: len(s) <= NTC and all(c in ("a", " ", chr(10)) for c in s)
     post: _
     """
     # a constructor's text argument is exposed through text_content (ListItem, and a Cell's display
